@@ -17,6 +17,7 @@
 #include "comm.h"
 #include "simul_efun.h"
 #include "efuns/call_out.h"
+#include <limits.h>
 #include "port/timer.h"
 #include "async/async_runtime.h"
 
@@ -572,6 +573,11 @@ int set_heart_beat (object_t * ob, int to) {
 
   if (ob->flags & O_DESTRUCTED)
     return 0;
+
+  /* the interval is kept in a short: clamp instead of silently truncating
+   * (40000 used to be stored as -25536 and 65536 as 0, both beating every tick) */
+  if (to > SHRT_MAX)
+    to = SHRT_MAX;
 
   if (!to)
     {
